@@ -24,6 +24,15 @@ MC = {
 DEFECTS = [("MC_Header_defect_SkipOffByOne.cfg", None), ("MC_Header_defect_KeepListFirst.cfg", None),
            ("MC_Header_defect_KeepPublicFlag.cfg", None), ("MC_Header_defect_NoBodyZone.cfg", None)]
 RECORD = {"quick": 400, "thorough": 6000}
+# xmod (dimension audit, harness/src/delta/module.rs: extended_module): class = index % 10, variant = index // 10.
+XCLASSES = ["tiny", "thousand", "alternating", "zones", "hugeprivate", "hugepublic", "rich", "flags", "refstmts", "bigheader"]
+# variants per class: modules of a thousand declarations cost TLC ~3000 events each, huge bodies ~1 s of front end each
+XVARIANTS = {"quick": {"tiny": 13, "thousand": 2, "alternating": 2, "zones": 16, "hugeprivate": 4, "hugepublic": 4, "rich": 16,
+                       "flags": 12, "refstmts": 12, "bigheader": 1},
+             "thorough": {"tiny": 60, "thousand": 20, "alternating": 20, "zones": 200, "hugeprivate": 40, "hugepublic": 40, "rich": 300,
+                          "flags": 200, "refstmts": 200, "bigheader": 6}}
+# classes inside the vocabulary of the algorithm model (strict validation); the others are validated at rule level only
+XSTRICT = {"tiny", "zones", "flags"}
 EVFILTER = ["zstart", "zone", "decl", "nodelen", "hskip", "hstep", "hlen"]
 
 RULE = ("TLC enumerates every module of <= N top-level declarations over the shapes of MC_Header.tla ('wide': 9 shapes "
@@ -34,7 +43,14 @@ RULE = ("TLC enumerates every module of <= N top-level declarations over the sha
         "integrity) and emits each module; every module is rendered and run through the real front end and the "
         "projection of build_header().as_xml() is compared with the rule's header, and textually with as_xml() of the "
         "rule's header rendered as its own module. Random modules (<= 40 declarations, bodies <= 120 statements) are "
-        "recorded with hook events and validated by TLC against the same rule. Non-trivial = distinct modules with at "
+        "recorded with hook events and validated by TLC against the same rule; so are the modules of the `xmod` generator: "
+        "0 / 1 / 1000 declarations, pub / private alternating 500 times, one private zone at the very start / very end / "
+        "covering everything / none, private and public functions of 4000-5000 statements before public declarations "
+        "(more than 2^16 nodes skipped, token numbers above 2^16), 7000 public constants (a header of more than 2^16 "
+        "nodes), values / types / names / list lengths outside the "
+        "model-checked vocabulary (strings and characters that need escaping in a dump, arrays, casts, structure "
+        "literals, 255-257 parameters / members, names of 255-1000 bytes), every combination of pub / extern / opaque on "
+        "every kind, statements with node references (blocks, ifs) in bodies. Non-trivial = distinct modules with at "
         "least one pub and one private declaration, or a pub function with a body.")
 
 ASSUMPTIONS = [
@@ -43,7 +59,10 @@ ASSUMPTIONS = [
     "composition is checked on every case: the projection of the full dump must equal the generated module",
     "imports are never pub (docs/features.md: 'Imports are themselves not public')",
     "body statements are drawn from {loop; goto end; var v: i32 = 1; f(1);}: the header must not depend on them",
-    "modules are syntactically well-formed; build_header is only defined for trees without parse errors",
+    "modules are syntactically well-formed; build_header is only defined for trees without parse errors "
+    "(ParseTree::build_header asserts it; the documented driver delta::test_suite::compile skips it then)",
+    "build_header applied to a header (idempotence) is observed for MODEL-DRIFT notes only: the property speaks of the "
+    "header of a parsed module",
 ]
 
 
@@ -139,14 +158,30 @@ def report(rep, kind, key, detail):
     return rep.violation(kind, key, detail)
 
 
+def xmod_indices(tier):
+    out = []
+    for c, k in enumerate(XCLASSES):
+        out += [v * len(XCLASSES) + c for v in range(XVARIANTS[tier][k])]
+    return sorted(out)
+
+
+def hh_drift(rep, key, o):
+    """Header of the header: the same buffer again (no property demands it: a note only)."""
+    if o.get("o") == "accepted" and "hh" in o and o["hh"] != [o.get("hnode"), o.get("hdecl")]:
+        rep.note_drift("%s: build_header of the header gives %s, the header has [nodes, declarations] = %s" %
+                       (key, o["hh"], [o.get("hnode"), o.get("hdecl")]))
+        return 1
+    return 0
+
+
 def trace_of(obs):
     """input / hook events / outcome lines of one recorded run; a crash or panic truncates it."""
     if "full" not in obs:
         if obs.get("o") == "accepted":
             raise common.ToolError("the dump of a generated module is outside the projection's vocabulary: %s" % obs.get("full_err"))
-        run = [{"ev": "input", "m": obs.get("gen", []), "note": "front end failed: %s" % obs.get("o")}]
+        run = [{"ev": "input", "m": obs.get("gen", []), "note": "front end failed: %s" % obs.get("o"), "xkey": obs.get("xkey", "")}]
         return run + (obs.get("ev") or [])
-    run = [{"ev": "input", "m": obs["full"]}]
+    run = [{"ev": "input", "m": obs["full"], "xkey": obs.get("xkey", "")}]
     run += obs.get("ev") or []
     if obs.get("o") == "accepted" and "hdr" in obs:
         run.append({"ev": "outcome", "ok": True, "hdr": obs["hdr"]})
@@ -194,6 +229,7 @@ def run(rep, tier, seed, selftest):
         for kind, msg in compare(c, o):
             report(rep, kind, key, {"case": {"g": "mod", "m": c["m"], "h": c["h"]}, "observed": {k: v for k, v in o.items() if k != "ev"},
                                     "problem": kind, "message": msg, "how": "bin/check C17 --replay <this file>"})
+        hh_drift(rep, key, o)
         d = drift(c, o)
         if d:
             rep.note_drift("%s: %s" % (key, "; ".join(d)))
@@ -222,34 +258,68 @@ def run(rep, tier, seed, selftest):
     rdesc = [{"g": "rmod", "seed": seed, "i": i} for i in range(count)]
     robs = delta_util.run_cases("C17", "record", rdesc, events=True, evfilter=EVFILTER)
     runs = [trace_of(o) for o in robs]
+    # the dimensions the first generator does not vary (0 / 1 / 1000 declarations, 500 zones, huge bodies, rich values,
+    # flags x kinds, statements with references): recorded the same way
+    xdesc = [{"g": "xmod", "seed": seed, "i": i} for i in xmod_indices(tier)]
+    xobs = delta_util.run_cases("C17", "xrecord", xdesc, events=True, evfilter=EVFILTER, timeout_s=120)
+    xstats = {}
+    for d, o in zip(xdesc, xobs):
+        st = xstats.setdefault(o.get("class", "?"), {"modules": 0, "max_declarations": 0, "max_tokens": 0, "max_nodes_skipped": 0})
+        st["modules"] += 1
+        st["max_declarations"] = max(st["max_declarations"], o.get("gen_n", 0))
+        st["max_tokens"] = max(st["max_tokens"], o.get("ntok", 0))
+        st["max_nodes_skipped"] = max([st["max_nodes_skipped"]] + [e["skipped"] for e in o.get("ev") or [] if e.get("ev") == "hlen"])
+        if o.get("o") == "accepted":
+            full = o.get("full")
+            if full is None or len(full) != o.get("gen_n") or [x["name"] for x in full] != o.get("gen_names"):
+                raise common.ToolError("xmod %s/%s was not parsed back as generated (renderer / projection bug, or a C16 defect): %s" %
+                                       (seed, d["i"], o.get("full_err") or "declarations differ"))
+        o["xkey"] = "xmod/%s/%s (%s)" % (seed, d["i"], o.get("class"))
+        hh_drift(rep, o["xkey"], o)
+    for d, o in zip(rdesc, robs):
+        hh_drift(rep, "rmod/%s/%s" % (seed, d["i"]), o)
+    xruns = [trace_of(o) for o in xobs]
+    log("[xmod] %d modules of the extended generator run on the real front end: %s" % (len(xdesc), json.dumps(xstats)))
     prefix = os.path.join(common.WORK, "C17-trace")
     files = delta_util.write_traces(prefix, runs, 12)
+    xfiles = delta_util.write_traces(os.path.join(common.WORK, "C17-xtrace"), xruns, 12)
+    xstrict_files = delta_util.write_traces(os.path.join(common.WORK, "C17-xstrict"),
+                                            [r_ for r_, o in zip(xruns, xobs) if o.get("class") in XSTRICT], 4)
+    robs = robs + xobs          # (the observations a rejected recording is looked up in)
 
     def rejected(bad, res):
         m = (bad["input"] or {}).get("m", [])
+        xkey = (bad["input"] or {}).get("xkey", "")
         o = robs[0]
-        detail = {"trace_file": res["file"], "first_unmatched_line": res["matched"] + 1, "unmatched_event": bad["event"],
-                  "case": {"g": "mod", "m": m}, "message": "recorded behaviour of the real front end is not a behaviour the rule allows"}
+        case = {"g": "mod", "m": m}
+        if xkey:
+            # a module of the extended generator travels as its descriptor (it can be a megabyte of JSON)
+            case = {"g": "xmod", "seed": int(xkey.split("/")[1]), "i": int(xkey.split("/")[2].split()[0])}
+        ev = bad["event"]
+        if ev and len(json.dumps(ev)) > 4000:
+            ev = {"ev": ev.get("ev"), "note": "event of %d bytes not shown" % len(json.dumps(ev))}
+        detail = {"trace_file": res["file"], "first_unmatched_line": res["matched"] + 1, "unmatched_event": ev,
+                  "case": case, "message": "recorded behaviour of the real front end is not a behaviour the rule allows"}
         note = (bad["input"] or {}).get("note", "")
-        if "panic" in note or "crash" in note:
+        if "panic" in note or "crash" in note or "timeout" in note:
             # find the observation to key it by its failure signature
             for ob in robs:
-                if ob.get("gen") == m and ob.get("o") in ("panic", "crash", "timeout"):
+                if ((ob.get("xkey") == xkey) if xkey else (ob.get("gen") == m)) and ob.get("o") in ("panic", "crash", "timeout"):
                     o = ob
                     break
             detail["observed"] = {k: v for k, v in o.items() if k not in ("ev", "gen", "full")}
-            report(rep, "delta-panic" if o.get("o") == "panic" else "delta-crash", modkey(m), detail)
+            report(rep, "delta-panic" if o.get("o") == "panic" else "delta-crash", xkey or modkey(m), detail)
         else:
-            rep.violation("header-trace", modkey(m), detail)
+            rep.violation("header-trace", xkey or modkey(m), detail)
 
-    traces_ok, trace_events = delta_util.validate_traces("Trace_Header", "Trace_Header_rule.cfg", files, rejected)
-    strict = common.tlc_traces("Trace_Header", "Trace_Header_strict.cfg", files)
+    traces_ok, trace_events = delta_util.validate_traces("Trace_Header", "Trace_Header_rule.cfg", files + xfiles, rejected)
+    strict = common.tlc_traces("Trace_Header", "Trace_Header_strict.cfg", files + xstrict_files)
     strict_ok = sum(1 for s in strict if s["accepted"])
     for s in strict:
         if not s["accepted"]:
             rep.note_drift("strict trace validation stops at line %d of %s" % (s["matched"] + 1, s["file"]))
-    log("[trace] %d recorded modules (%d events) validated against the rule: %d accepted; strict (algorithm) mode: %d/%d files" %
-        (count, trace_events, traces_ok, strict_ok, len(files)))
+    log("[trace] %d + %d recorded modules (%d events) validated against the rule: %d accepted; strict (algorithm) mode: %d/%d files" %
+        (count, len(xdesc), trace_events, traces_ok, strict_ok, len(files) + len(xstrict_files)))
     if selftest and files:
         def drop_decl_from_outcome(lines):
             for k, ln in enumerate(lines):
@@ -293,6 +363,10 @@ def run(rep, tier, seed, selftest):
                                                                ("kept_public_flag_rejected", keep_flag_in_outcome),
                                                                ("dropped_decl_event_rejected", drop_decl_event),
                                                                ("body_in_header_rejected", body_in_header)])
+        # the same corruptions on a recording of the extended generator (validated at rule level only)
+        muts += [("xmod_" + n_, p_) for n_, p_ in delta_util.corrupted_copies(xfiles[0], "C17x", [
+            ("dropped_header_declaration_rejected", drop_decl_from_outcome), ("kept_public_flag_rejected", keep_flag_in_outcome),
+            ("dropped_decl_event_rejected", drop_decl_event)])] if xfiles else []
         res = common.tlc_traces("Trace_Header", "Trace_Header_rule.cfg", [p for _, p in muts])
         by = {r["file"]: r for r in res}
         for name, p in muts:
@@ -311,7 +385,7 @@ def run(rep, tier, seed, selftest):
         "transitions": trans,
         "traces_validated_against_impl": len(cases) + traces_ok,
         "samples": samples,
-        "evaluations": len(cases) + count,
+        "evaluations": len(cases) + count + len(xdesc),
         "distinct_nontrivial": len(nontriv),
         "rule": RULE,
         "exhaustive": True,
@@ -319,10 +393,11 @@ def run(rep, tier, seed, selftest):
         "violated_invariant": violated,
         "cases_replayed": len(cases),
         "model_agreement": "%d/%d" % (agree, len(cases)),
-        "random_traces_recorded": count,
+        "random_traces_recorded": count + len(xdesc),
+        "extended_generator": xstats,
         "random_traces_accepted_rule_level": traces_ok,
         "trace_events_matched": trace_events,
-        "strict_trace_files_accepted": "%d/%d" % (strict_ok, len(files)),
+        "strict_trace_files_accepted": "%d/%d" % (strict_ok, len(files) + len(xstrict_files)),
         "tlc_config": [c for c, _ in MC[tier]],
         "selftests": selftests,
     }
